@@ -455,12 +455,12 @@ class FakeKernel:
             raise ProcessLookupError(errno.ESRCH, "No such process")
         return self._getpgid(pid)
 
-    def killpg(self, pgid, sig):
+    def killpg(self, pgid, sig, grp=True):
         if pgid not in self.proc:
             self.ev(e="Kill", pgid=pgid, sig=int(sig), foreign=True)
             return None
         st = self.proc[pgid]
-        self.ev(e="Kill", pgid=pgid, t=self.task_of[pgid], sig=int(sig), state=st)
+        self.ev(e="Kill", pgid=pgid, t=self.task_of[pgid], sig=int(sig), state=st, grp=grp)
         if st == "reaped":
             raise ProcessLookupError(errno.ESRCH, "No such process")
         if st == "running" and self.term_kills:
@@ -469,7 +469,8 @@ class FakeKernel:
 
     def kill(self, pid, sig):
         if pid in self.proc:
-            return self.killpg(pid, sig)
+            # a signal to the leading process ALONE (not to its group): recorded as such
+            return self.killpg(pid, sig, grp=False)
         return self._kill(pid, sig)
 
     def signal_(self, signum, handler):
